@@ -390,6 +390,21 @@ def _(r, p):
     return polygonize(r[0], **kw)
 
 
+@op("circle_kernel")
+def _(r, p):
+    return convolution.circle_kernel(p["cellsize_x"], p["cellsize_y"], p["radius"])
+
+
+@op("annulus_kernel")
+def _(r, p):
+    return convolution.annulus_kernel(p["cellsize_x"], p["cellsize_y"], p["outer_radius"], p["inner_radius"])
+
+
+@op("calc_cellsize")
+def _(r, p):
+    return list(convolution.calc_cellsize(r[0]))
+
+
 @op("bump")
 def _(r, p):
     from xrspatial import bump
